@@ -4,7 +4,7 @@ Degenerate simulation target (deterministic sequential state machines): the simu
 seeded multi-epoch outcome histories, the executable specification as oracle, replay and
 minimisation.  No schedule dimension exists and none is claimed.
 """
-from sim.core import EndRun
+from sim.core import EndRun, close
 from sim.models.errdet import Recs, ddm_spec, eddm_spec, stepd_spec
 from sim import workload
 
@@ -195,6 +195,16 @@ def run(case, ctx):
             ctx.violation("state", f"C05:{name}:state",
                           f"after sample {t} (epoch {epoch_no}, n={len(epoch)}) spec says {exp_state!r}, detector says {got!r}; cfg={cfg}")
             raise EndRun()
+        if name == "stepd" and all(hasattr(det, a) for a in ("recent_accuracy", "past_accuracy", "overall_accuracy")):
+            # the three accuracies the test is made of, as the public accessors document them
+            n, w = len(epoch), min(cfg["window_size"], len(epoch))
+            want = (sum(epoch[n - w:]) / w, (sum(epoch[: n - w]) / (n - w)) if n > w else 0, sum(epoch) / n)
+            have = (det.recent_accuracy(), det.past_accuracy(), det.overall_accuracy())
+            if not all(close(float(a), float(b), 1e-12) for a, b in zip(have, want)):
+                ctx.violation("accuracy", "C05:stepd:accuracies",
+                              f"after sample {t} (epoch {epoch_no}, n={n}, window {cfg['window_size']}): recent / past / overall accuracy {tuple(float(v) for v in have)}, "
+                              f"from the epoch's outcomes {want}; cfg={cfg}")
+                raise EndRun()
         exp_recs = recs.step(exp_state, t)
         got_recs = [None if v is None else int(v) for v in list(det.retraining_recs)]
         if got_recs != exp_recs:
